@@ -219,7 +219,7 @@ func (w *World) Enabled() []Event {
 		if w.Budget[BForget] > 0 && n.vs().State == raft.StateFollower && n.vs().Lead != 0 {
 			out = append(out, Event{Kind: EvForgetLeader, Node: id})
 		}
-		if w.Budget[BCompact] > 0 && allowed(w.Sc.CompactNodes, id) && n.App.Applied > diskView(n.Disk).BaseIndex {
+		if w.Budget[BCompact] > 0 && allowed(w.Sc.CompactNodes, id) && min(n.App.Applied, n.vs().Applied) > diskView(n.Disk).BaseIndex && n.App.Applied == n.vs().Applied {
 			out = append(out, Event{Kind: EvCompact, Node: id})
 		}
 		for _, p := range n.SnapObl {
